@@ -1,1 +1,381 @@
-/- C10 — theorems (placeholder until the property is built). -/
+/-
+  C10 — Filters change only valid pixels, to an average of their valid neighbours.
+
+  Theorems about the executable model `Model/Filter.lean` (+ `Model/Blocks.lean`), for disparity maps and
+  validity masks of any size, any odd filter size, any window width, any non-negative weights, and any
+  split of the image into processing blocks; the loop literals and the window formula of the source are
+  instantiated from `Generated/Blocks.lean`, the flag constants from `Generated/Constants.lean`.
+-/
+import PandoraModel.Lemmas.Median
+import PandoraModel.Lemmas.Blocks
+import PandoraModel.Generated.Blocks
+import PandoraModel.Generated.Constants
+import PandoraModel.Model.Flags
+import Mathlib.Algebra.Order.Field.Basic
+
+namespace Pandora.C10
+open Pandora Pandora.Filter
+
+/-! ### 0. small facts -/
+
+theorem mem_cells (w a b : Nat) : (a, b) ∈ cells w ↔ a < w ∧ b < w := by
+  simp [cells, List.mem_flatMap, List.mem_map, List.mem_range]
+
+theorem val_beq_self (v : Val) : (v == v) = true := by simp
+
+theorem maskCell_num {invalidMask flag : Nat} {d : Val} {v : Rat}
+    (h : maskCell invalidMask flag d = .num v) : d = .num v := by
+  unfold maskCell at h
+  split at h
+  · exact absurd h (by simp)
+  · exact h
+
+/-! ### 1. Median: block independence and the per-pixel specification -/
+
+/-- the median filter computes, at every cell, the unsplit formula — for every split of the window
+    array (any `np.arange(start, stop, step)` on both axes), provided the offsets start at the radius -/
+theorem medianFilter_eq_direct (s : Blocks.Split) (fs ny nx : Nat) (data : Img)
+    (hy : s.beginY = fs / 2) (hx : s.beginX = fs / 2) (hodd : fs % 2 = 1) (hny : fs ≤ ny) (hnx : fs ≤ nx)
+    (r c : Nat) :
+    medianFilter s fs ny nx data r c =
+      if (data r c).isNan then .nan
+      else if interior (fs / 2) (fs / 2) ny nx r c then nanmedian (window data fs (r - fs / 2) (c - fs / 2))
+      else data r c := by
+  unfold medianFilter
+  rw [Blocks.blocked_eq_direct]
+  simp only [Blocks.direct, Blocks.Split.plan, hy, hx]
+  by_cases hn : (data r c).isNan = true
+  · simp [hn]
+  · simp only [hn, if_false, Bool.false_eq_true]
+    have hiff : (fs / 2 ≤ r ∧ r < fs / 2 + (ny - fs + 1) ∧ fs / 2 ≤ c ∧ c < fs / 2 + (nx - fs + 1))
+        ↔ interior (fs / 2) (fs / 2) ny nx r c = true := by
+      simp only [interior, Bool.and_eq_true, decide_eq_true_eq]
+      omega
+    by_cases hi : interior (fs / 2) (fs / 2) ny nx r c = true
+    · rw [if_pos (hiff.2 hi), if_pos hi]
+    · rw [if_neg (fun h => hi (hiff.1 h)), if_neg hi]
+
+/-- **Block independence (median).** -/
+theorem medianFilter_block_independent (s s' : Blocks.Split) (fs ny nx : Nat) (data : Img)
+    (hy : s.beginY = s'.beginY) (hx : s.beginX = s'.beginX) :
+    medianFilter s fs ny nx data = medianFilter s' fs ny nx data := by
+  funext r c
+  unfold medianFilter
+  rw [Blocks.blocked_eq_direct, Blocks.blocked_eq_direct]
+  simp [Blocks.direct, Blocks.Split.plan, hy, hx]
+
+/-- the window the code takes (top-left corner `(r - radius, c - radius)`, side `fs`) is the pixel's
+    centred window -/
+theorem window_eq_centred (data : Img) (fs r c : Nat) (hodd : fs % 2 = 1) :
+    window data fs (r - fs / 2) (c - fs / 2) = centredWindow data (fs / 2) (fs / 2) r c := by
+  unfold window centredWindow
+  have : fs / 2 + fs / 2 + 1 = fs := by omega
+  rw [this]
+
+/-- **Per-cell theorem (median).**  `out` is what `filter_disparity` / `median_filter` leave in a cell whose
+    previous content is `orig`, `data` being the NaN-masked array the filter works on. -/
+theorem median_cell (s : Blocks.Split) (fs ny nx : Nat) (data : Img) (orig : Val) (r c : Nat)
+    (hy : s.beginY = fs / 2) (hx : s.beginX = fs / 2) (hodd : fs % 2 = 1) (hny : fs ≤ ny) (hnx : fs ≤ nx)
+    (horig : ∀ v, data r c = .num v → orig = .num v) :
+    medianCellSpec data fs ny nx r c orig
+      (if (data r c).isNum then medianFilter s fs ny nx data r c else orig) = true := by
+  rw [medianFilter_eq_direct s fs ny nx data hy hx hodd hny hnx]
+  unfold medianCellSpec medianCellFailures
+  cases hd : data r c with
+  | nan => simp [Val.isNum, Val.isNan]
+  | num v =>
+    have ho := horig v hd
+    simp only [Val.isNum, Val.isNan, Bool.not_false, if_true, Bool.false_eq_true, if_false]
+    by_cases hi : interior (fs / 2) (fs / 2) ny nx r c = true
+    · rw [if_pos hi]
+      simp only [hi, Bool.not_true, Bool.false_eq_true, if_false]
+      rw [window_eq_centred data fs r c hodd]
+      -- the pixel itself is in its window, so the window has a valid value
+      have hmem : Val.num v ∈ centredWindow data (fs / 2) (fs / 2) r c := by
+        unfold centredWindow
+        refine List.mem_map.2 ⟨(fs / 2, fs / 2), (mem_cells _ _ _).2 ⟨by omega, by omega⟩, ?_⟩
+        simp only [interior, Bool.and_eq_true, decide_eq_true_eq] at hi
+        have h1 : r - fs / 2 + fs / 2 = r := by omega
+        have h2 : c - fs / 2 + fs / 2 = c := by omega
+        simp only [h1, h2, hd]
+      have hne : nums (centredWindow data (fs / 2) (fs / 2) r c) ≠ [] := by
+        intro h
+        have : v ∈ nums (centredWindow data (fs / 2) (fs / 2) r c) :=
+          List.mem_filterMap.2 ⟨_, hmem, rfl⟩
+        rw [h] at this; simp at this
+      obtain ⟨m, hm, hmed⟩ := nanmedian_isMedian _ hne
+      rw [hm]
+      simp [hmed, isMedian_between _ _ hmed]
+    · rw [if_neg hi]
+      simp [hi, ho]
+
+/-- **C10 for `MedianFilter.filter_disparity`.**  Every pixel of the new disparity map satisfies the
+    per-pixel specification w.r.t. the NaN-masked input: invalid pixels and pixels nearer to an edge than
+    the radius keep their disparity, every other valid pixel becomes the median of the valid disparities
+    of its window, which lies between their minimum and maximum. -/
+theorem medianFilterDisparity_spec (s : Blocks.Split) (invalidMask fs ny nx : Nat) (flags : Nat → Nat → Nat)
+    (disp : Img) (hy : s.beginY = fs / 2) (hx : s.beginX = fs / 2) (hodd : fs % 2 = 1)
+    (hny : fs ≤ ny) (hnx : fs ≤ nx) (r c : Nat) :
+    medianCellSpec (masked invalidMask flags disp) fs ny nx r c (disp r c)
+      (medianFilterDisparity s invalidMask fs ny nx flags disp r c) = true := by
+  unfold medianFilterDisparity
+  exact median_cell s fs ny nx (masked invalidMask flags disp) (disp r c) r c hy hx hodd hny hnx
+    (fun v hv => maskCell_num hv)
+
+/-- **`intervals_same_median`**: `median_filter` applied to an interval-bound band satisfies the same
+    per-cell specification, "valid" meaning "not NaN in the band". -/
+theorem medianBand_spec (s : Blocks.Split) (fs ny nx : Nat) (band : Img)
+    (hy : s.beginY = fs / 2) (hx : s.beginX = fs / 2) (hodd : fs % 2 = 1)
+    (hny : fs ≤ ny) (hnx : fs ≤ nx) (r c : Nat) :
+    medianCellSpec band fs ny nx r c (band r c) (medianFilter s fs ny nx band r c) = true := by
+  have h := median_cell s fs ny nx band (band r c) r c hy hx hodd hny hnx (fun v hv => hv)
+  have e : (if (band r c).isNum then medianFilter s fs ny nx band r c else band r c)
+      = medianFilter s fs ny nx band r c := by
+    cases hb : band r c with
+    | num v => simp [Val.isNum, Val.isNan]
+    | nan =>
+      simp only [Val.isNum, Val.isNan, Bool.not_true, Bool.false_eq_true, if_false]
+      unfold medianFilter
+      simp [hb, Val.isNan]
+  rw [e] at h
+  exact h
+
+/-- the two statements for the loop literals found in median.py on this run -/
+theorem source_median_spec (invalidMask fs ny nx : Nat) (flags : Nat → Nat → Nat) (disp band : Img)
+    (hodd : fs % 2 = 1) (hny : fs ≤ ny) (hnx : fs ≤ nx) (r c : Nat) :
+    medianCellSpec (masked invalidMask flags disp) fs ny nx r c (disp r c)
+      (medianFilterDisparity (Generated.Blocks.median fs) invalidMask fs ny nx flags disp r c) = true
+    ∧ medianCellSpec band fs ny nx r c (band r c)
+      (medianFilter (Generated.Blocks.median fs) fs ny nx band r c) = true :=
+  ⟨medianFilterDisparity_spec _ invalidMask fs ny nx flags disp rfl rfl hodd hny hnx r c,
+   medianBand_spec _ fs ny nx band rfl rfl hodd hny hnx r c⟩
+
+/-! ### 2. Bilateral: weighted mean of the valid window values, between their min and max -/
+
+theorem nums_map_weights (wts : Weights) (win : Nat → Nat → Val) (ctr : Rat) (L : List (Nat × Nat)) :
+    nums (L.map (cellWeight wts win (.num ctr)))
+      = (L.filterMap (fun p => match win p.1 p.2 with
+          | .nan => none
+          | .num v => some (wts.spatial p.1 p.2 * wts.range (v - ctr), v))).map (fun p => p.1) := by
+  induction L with
+  | nil => rfl
+  | cons p L ih =>
+    simp only [List.map_cons, List.filterMap_cons, nums] at ih ⊢
+    cases hw : win p.1 p.2 with
+    | nan =>
+      have : cellWeight wts win (.num ctr) p = .nan := by simp [cellWeight, hw]; rfl
+      simp [this, num?, ih]
+    | num v =>
+      have : cellWeight wts win (.num ctr) p = .num (wts.spatial p.1 p.2 * wts.range (v - ctr)) := by
+        simp [cellWeight, hw]; rfl
+      simp [this, num?, ih]
+
+theorem nums_map_pixelWeights (wts : Weights) (win : Nat → Nat → Val) (ctr : Rat) (L : List (Nat × Nat)) :
+    nums (L.map (fun p => win p.1 p.2 * cellWeight wts win (.num ctr) p))
+      = (L.filterMap (fun p => match win p.1 p.2 with
+          | .nan => none
+          | .num v => some (wts.spatial p.1 p.2 * wts.range (v - ctr), v))).map (fun p => p.1 * p.2) := by
+  induction L with
+  | nil => rfl
+  | cons p L ih =>
+    simp only [List.map_cons, List.filterMap_cons, nums] at ih ⊢
+    cases hw : win p.1 p.2 with
+    | nan =>
+      have : (Val.nan * cellWeight wts win (.num ctr) p) = .nan := rfl
+      simp [this, num?, ih]
+    | num v =>
+      have : cellWeight wts win (.num ctr) p = .num (wts.spatial p.1 p.2 * wts.range (v - ctr)) := by
+        simp [cellWeight, hw]; rfl
+      have e : (Val.num v * Val.num (wts.spatial p.1 p.2 * wts.range (v - ctr)))
+          = .num (v * (wts.spatial p.1 p.2 * wts.range (v - ctr))) := rfl
+      simp [this, e, num?, ih, mul_comm]
+
+/-- `nansum(windows * weights) / nansum(weights)` is the weighted mean over the valid window cells -/
+theorem kernel_eq_weightedMean (wts : Weights) (w off : Nat) (win : Nat → Nat → Val) (ctr : Rat)
+    (hc : win off off = .num ctr)
+    (hden : ((validPairs wts w win ctr).map (fun p => p.1)).sum ≠ 0) :
+    bilateralKernel wts w off win = .num (weightedMean (validPairs wts w win ctr)) := by
+  unfold bilateralKernel
+  simp only [hc, nansum]
+  rw [nums_map_weights, nums_map_pixelWeights]
+  unfold validPairs at hden
+  split
+  · next h => exact absurd h hden
+  · rfl
+
+theorem weightedSum_bounds (lo hi : Rat) : ∀ (ps : List (Rat × Rat)),
+    (∀ p ∈ ps, 0 ≤ p.1) → (∀ p ∈ ps, lo ≤ p.2 ∧ p.2 ≤ hi) →
+    lo * (ps.map (fun p => p.1)).sum ≤ (ps.map (fun p => p.1 * p.2)).sum
+    ∧ (ps.map (fun p => p.1 * p.2)).sum ≤ hi * (ps.map (fun p => p.1)).sum
+  | [], _, _ => by simp
+  | p :: ps, hw, hv => by
+    obtain ⟨ih1, ih2⟩ := weightedSum_bounds lo hi ps (fun q hq => hw q (List.mem_cons_of_mem _ hq))
+      (fun q hq => hv q (List.mem_cons_of_mem _ hq))
+    have hp := hw p List.mem_cons_self
+    obtain ⟨hl, hh⟩ := hv p List.mem_cons_self
+    simp only [List.map_cons, List.sum_cons]
+    have h1 : lo * p.1 ≤ p.1 * p.2 := by nlinarith
+    have h2 : p.1 * p.2 ≤ hi * p.1 := by nlinarith
+    constructor <;> nlinarith
+
+/-- **A weighted mean with non-negative weights of positive total lies between any bounds of the values.** -/
+theorem weightedMean_between (lo hi : Rat) (ps : List (Rat × Rat))
+    (hw : ∀ p ∈ ps, 0 ≤ p.1) (hpos : 0 < (ps.map (fun p => p.1)).sum)
+    (hv : ∀ p ∈ ps, lo ≤ p.2 ∧ p.2 ≤ hi) :
+    lo ≤ weightedMean ps ∧ weightedMean ps ≤ hi := by
+  obtain ⟨h1, h2⟩ := weightedSum_bounds lo hi ps hw hv
+  unfold weightedMean
+  exact ⟨(le_div_iff₀ hpos).2 h1, (div_le_iff₀ hpos).2 h2⟩
+
+theorem bilateralFilter_eq_direct (s : Blocks.Split) (wts : Weights) (w ny nx : Nat) (data : Img)
+    (hy : s.beginY = w / 2) (hx : s.beginX = w / 2) (hw : 0 < w) (hny : w ≤ ny) (hnx : w ≤ nx)
+    (r c : Nat) :
+    bilateralFilter s wts w ny nx data r c =
+      if (data r c).isNan then .nan
+      else if interior (w / 2) (w - 1 - w / 2) ny nx r c then
+        bilateralKernel wts w (w / 2) (fun a b => data (r - w / 2 + a) (c - w / 2 + b))
+      else data r c := by
+  unfold bilateralFilter
+  rw [Blocks.blocked_eq_direct]
+  simp only [Blocks.direct, Blocks.Split.plan, hy, hx]
+  by_cases hn : (data r c).isNan = true
+  · simp [hn]
+  · simp only [hn, if_false, Bool.false_eq_true]
+    have hiff : (w / 2 ≤ r ∧ r < w / 2 + (ny - w + 1) ∧ w / 2 ≤ c ∧ c < w / 2 + (nx - w + 1))
+        ↔ interior (w / 2) (w - 1 - w / 2) ny nx r c = true := by
+      simp only [interior, Bool.and_eq_true, decide_eq_true_eq]
+      omega
+    by_cases hi : interior (w / 2) (w - 1 - w / 2) ny nx r c = true
+    · rw [if_pos (hiff.2 hi), if_pos hi]
+    · rw [if_neg (fun h => hi (hiff.1 h)), if_neg hi]
+
+/-- **Block independence (bilateral).** -/
+theorem bilateralFilter_block_independent (s s' : Blocks.Split) (wts : Weights) (w ny nx : Nat) (data : Img)
+    (hy : s.beginY = s'.beginY) (hx : s.beginX = s'.beginX) :
+    bilateralFilter s wts w ny nx data = bilateralFilter s' wts w ny nx data := by
+  funext r c
+  unfold bilateralFilter
+  rw [Blocks.blocked_eq_direct, Blocks.blocked_eq_direct]
+  simp [Blocks.direct, Blocks.Split.plan, hy, hx]
+
+theorem closeTo_self (m : Rat) : closeTo 0 m m = true := by
+  simp [closeTo, absRat]
+
+/-- **C10 for `BilateralFilter.filter_disparity`** (exact arithmetic, tolerance 0): invalid pixels and
+    pixels outside the interior keep their disparity; every other valid pixel becomes the weighted mean of
+    the valid disparities of its window (weights = spatial factor × range factor), which lies between
+    their minimum and maximum whenever the weights are non-negative with a positive total. -/
+theorem bilateralFilterDisparity_spec (s : Blocks.Split) (wts : Weights) (invalidMask w ny nx : Nat)
+    (flags : Nat → Nat → Nat) (disp : Img)
+    (hy : s.beginY = w / 2) (hx : s.beginX = w / 2) (hw : 0 < w) (hny : w ≤ ny) (hnx : w ≤ nx) (r c : Nat)
+    (hwf : ∀ ctr, masked invalidMask flags disp r c = .num ctr →
+      wfWeightsAt wts w (fun a b => masked invalidMask flags disp (r - w / 2 + a) (c - w / 2 + b)) ctr = true) :
+    bilateralCellSpec wts 0 (masked invalidMask flags disp) w ny nx r c (disp r c)
+      (bilateralFilterDisparity s wts invalidMask w ny nx flags disp r c) = true := by
+  unfold bilateralFilterDisparity
+  rw [bilateralFilter_eq_direct s wts w ny nx _ hy hx hw hny hnx]
+  unfold bilateralCellSpec bilateralCellFailures
+  cases hd : masked invalidMask flags disp r c with
+  | nan => simp [Val.isNum, Val.isNan]
+  | num ctr =>
+    have ho : disp r c = .num ctr := maskCell_num hd
+    simp only [Val.isNum, Val.isNan, Bool.not_false, if_true, Bool.false_eq_true, if_false]
+    by_cases hi : interior (w / 2) (w - 1 - w / 2) ny nx r c = true
+    · rw [if_pos hi]
+      simp only [hi, Bool.not_true, Bool.false_eq_true, if_false]
+      have hwf' := hwf ctr hd
+      simp only [wfWeightsAt, Bool.and_eq_true, decide_eq_true_eq, List.all_eq_true] at hwf'
+      obtain ⟨hnonneg, hpos⟩ := hwf'
+      have hcentre : (fun a b => masked invalidMask flags disp (r - w / 2 + a) (c - w / 2 + b)) (w / 2) (w / 2)
+          = .num ctr := by
+        simp only [interior, Bool.and_eq_true, decide_eq_true_eq] at hi
+        have h1 : r - w / 2 + w / 2 = r := by omega
+        have h2 : c - w / 2 + w / 2 = c := by omega
+        simp only [h1, h2, hd]
+      rw [kernel_eq_weightedMean wts w (w / 2) _ ctr hcentre (ne_of_gt hpos)]
+      set ps := validPairs wts w (fun a b => masked invalidMask flags disp (r - w / 2 + a) (c - w / 2 + b)) ctr
+        with hps
+      have hb := weightedMean_between (minOf (ps.map (fun p => p.2))) (maxOf (ps.map (fun p => p.2))) ps
+        (fun p hp => by simpa using hnonneg p hp) hpos
+        (fun p hp => ⟨minOf_le _ _ (List.mem_map.2 ⟨p, hp, rfl⟩), le_maxOf _ _ (List.mem_map.2 ⟨p, hp, rfl⟩)⟩)
+      simp [closeTo_self, between, hb.1, hb.2]
+    · rw [if_neg hi]
+      simp [hi, ho]
+
+/-- the window formula and loop literals found in bilateral.py on this run are the model's -/
+theorem source_bilateral_window (ny nx : Nat) (sigmaSpace : Rat) :
+    Generated.Blocks.bilateralWinWidth [ny, nx] sigmaSpace = winWidth ny nx sigmaSpace := by
+  simp [Generated.Blocks.bilateralWinWidth, winWidth]
+
+theorem source_bilateral_spec (wts : Weights) (invalidMask w ny nx : Nat)
+    (flags : Nat → Nat → Nat) (disp : Img) (hw : 0 < w) (hny : w ≤ ny) (hnx : w ≤ nx) (r c : Nat)
+    (hwf : ∀ ctr, masked invalidMask flags disp r c = .num ctr →
+      wfWeightsAt wts w (fun a b => masked invalidMask flags disp (r - w / 2 + a) (c - w / 2 + b)) ctr = true) :
+    bilateralCellSpec wts 0 (masked invalidMask flags disp) w ny nx r c (disp r c)
+      (bilateralFilterDisparity (Generated.Blocks.bilateral w) wts invalidMask w ny nx flags disp r c) = true :=
+  bilateralFilterDisparity_spec _ wts invalidMask w ny nx flags disp rfl rfl hw hny hnx r c hwf
+
+/-! ### 3. Validity mask: only bit 11, only raised, validity never changed -/
+
+theorem invalidMask_documented :
+    Generated.Constants.PANDORA_MSK_PIXEL_INVALID = Flags.pixelInvalid
+    ∧ Generated.Constants.PANDORA_MSK_PIXEL_INTERVAL_REGULARIZED = Flags.intervalRegularized := by decide
+
+/-- `bit11_only`: `|=` changes nothing but bit 11, and only upwards -/
+theorem regularize_flagSpec (bit : Nat) (reg : Nat → Nat → Bool) (flags : Nat → Nat → Nat) (r c : Nat) :
+    flagSpec bit (flags r c) (regularizeFlags bit reg flags r c) true = true := by
+  unfold flagSpec regularizeFlags
+  cases reg r c <;> simp
+
+/-- every other bit is untouched -/
+theorem regularize_other_bits (f i : Nat) (hi : i ≠ 11) :
+    (f ||| Flags.intervalRegularized).testBit i = f.testBit i := by
+  have : Flags.intervalRegularized = 2 ^ 11 := by decide
+  rw [Nat.testBit_or, this, Nat.testBit_two_pow]
+  simp [Ne.symm hi]
+
+/-- whether the pixel is invalid is not changed by the regularisation flag -/
+theorem regularize_validity (f : Nat) :
+    Flags.isInvalid (f ||| Flags.intervalRegularized) = Flags.isInvalid f := by
+  unfold Flags.isInvalid
+  rw [Nat.and_or_distrib_right]
+  have : Flags.intervalRegularized &&& Flags.pixelInvalid = 0 := by decide
+  rw [this, Nat.or_zero]
+
+/-- raising the bit twice is raising it once (what `+=` would not give) -/
+theorem regularize_idempotent (bit : Nat) (reg : Nat → Nat → Bool) (flags : Nat → Nat → Nat) :
+    regularizeFlags bit reg (regularizeFlags bit reg flags) = regularizeFlags bit reg flags := by
+  funext r c
+  unfold regularizeFlags
+  cases reg r c <;> simp [Nat.or_assoc]
+
+/-! ### 4. Non-vacuity -/
+
+def demoDisp : Img := fun r c =>
+  .num (([[1, 2, 3, 4], [5, 9, 7, 8], [2, 4, 6, 8], [1, 3, 5, 7]] : List (List Rat)).getD r [] |>.getD c 0)
+def demoFlags : Nat → Nat → Nat := fun r c => if r = 1 ∧ c = 2 then 64 else 0
+
+/-- valid interior pixel (1,1) of a 4×4 map with an invalid neighbour: 8 valid values, the median is the
+    mean of the two middle ones -/
+example : medianFilterDisparity (Generated.Blocks.median 3) 963 3 4 4 demoFlags demoDisp 1 1 = .num (7 / 2) := by
+  decide +kernel
+/-- the invalid pixel keeps its disparity, an edge pixel too -/
+example : medianFilterDisparity (Generated.Blocks.median 3) 963 3 4 4 demoFlags demoDisp 1 2 = .num 7 := by
+  decide +kernel
+example : medianFilterDisparity (Generated.Blocks.median 3) 963 3 4 4 demoFlags demoDisp 0 1 = .num 2 := by
+  decide +kernel
+/-- the specification rejects another value at the interior pixel -/
+example : medianCellSpec (masked 963 demoFlags demoDisp) 3 4 4 1 1 (.num 9) (.num 4) = false := by decide +kernel
+example : medianCellSpec (masked 963 demoFlags demoDisp) 3 4 4 1 1 (.num 9) (.num (7 / 2)) = true := by
+  decide +kernel
+
+def demoWeights : Weights :=
+  { spatial := fun a b => if a = 1 ∧ b = 1 then 2 else 1, range := fun d => if d = 0 then 1 else 1 / 2 }
+/-- the hypothesis on the weights is satisfiable, and the bilateral result differs from the input -/
+example : wfWeightsAt demoWeights 3 (fun a b => masked 963 demoFlags demoDisp (1 - 1 + a) (1 - 1 + b)) 9 = true := by
+  decide +kernel
+example : bilateralFilterDisparity (Generated.Blocks.bilateral 3) demoWeights 963 3 4 4 demoFlags demoDisp 1 1
+    = .num (59 / 11) := by
+  decide +kernel
+
+end Pandora.C10
